@@ -1,0 +1,60 @@
+// Copyright The gittuf Authors
+// SPDX-License-Identifier: Apache-2.0
+
+//go:build verif
+
+// gvc contracts (comment-only, read under the "verif" build tag).
+
+package policy
+
+//@ # ---- C05: threshold counting in SignatureVerifier.Verify ----
+//@ define setHas(s *set.Set[string], k string) bool = s != nil && has(s.contents, k)
+//@ define setLen(s *set.Set[string]) int = len(s.contents)
+//@ define trustedID(v *SignatureVerifier, s string) bool = exists i :: 0 <= i && i < len(v.principals) && pID(v.principals[i]) == s
+//@ # keyOK: the key validates the Git object's own signature or a signature of the envelope
+//@ define keyOK(gitID Hash, env *sslibdsse.Envelope, k string) bool = gitValid(k, objPayload(gitID), objSig(gitID)) || envValid(env, k)
+//@ # creditedKey: the key belongs to a principal of the rule that is in the credited set
+//@ define creditedKey(v *SignatureVerifier, ps *set.Set[string], k string) bool = exists i :: 0 <= i && i < len(v.principals) && pHasKey(v.principals[i], k) && setHas(ps, pID(v.principals[i]))
+//@ # credit: every credited principal is trusted by the rule, every used key is valid and belongs to a credited
+//@ # principal, and there are at least as many distinct used keys as credited principals (cardinality form of
+//@ # "each principal with a different key")
+//@ define credit(v *SignatureVerifier, gitID Hash, env *sslibdsse.Envelope, ps *set.Set[string], ks *set.Set[string]) bool = ps != nil && ks != nil && ps.contents != nil && ks.contents != nil
+//@ ..  && (forall s string :: setHas(ps, s) ==> trustedID(v, s))
+//@ ..  && (forall k string :: setHas(ks, k) ==> keyOK(gitID, env, k) && creditedKey(v, ps, k))
+//@ ..  && setLen(ps) <= setLen(ks)
+//@ define setsFresh(ps *set.Set[string], ks *set.Set[string]) bool = fresh(ps) && fresh(ks) && fresh(ps.contents) && fresh(ks.contents) && ps != ks && ps.contents != ks.contents
+//@ define noNilPrincipals(v *SignatureVerifier) bool = forall i :: 0 <= i && i < len(v.principals) ==> v.principals[i] != nil
+
+//@ func [C05] (*SignatureVerifier).Verify -> (r, err)
+//@   requires v != nil && v.repository != nil && noNilPrincipals(v)
+//@   assigns ghost faults, fresh(set.Set[string].contents), fresh(map map[string]struct{}), fresh(elems gitobject.Option), fresh(elems sslibdsse.Verifier), fresh(elems sigstoreverifieropts.Option)
+//@   ensures invalidVerifier: v.threshold < 1 || len(v.principals) < 1 ==> err == ErrInvalidVerifier && r == nil
+//@   ensures thresholdMet: err == nil && !v.verifyExhaustively ==> r != nil && setLen(r) >= v.threshold && v.threshold >= 1
+//@   ensures creditSound: r != nil ==> r == usedPrincipalIDs && credit(v, gitObjectID, env, usedPrincipalIDs, usedKeyIDs)
+//@   ensures oneGitCredit: r != nil && env == nil ==> setLen(r) <= 1
+//@   loop 1:
+//@     invariant noCreditYet: !gitObjectVerified && usedPrincipalIDs != nil && usedKeyIDs != nil && usedPrincipalIDs.contents != nil && usedKeyIDs.contents != nil && setsFresh(usedPrincipalIDs, usedKeyIDs) && setLen(usedPrincipalIDs) == 0 && setLen(usedKeyIDs) == 0
+//@     invariant emptyP: forall s string :: !setHas(usedPrincipalIDs, s)
+//@     invariant emptyK: forall k string :: !setHas(usedKeyIDs, k)
+//@     invariant sig: payload == objPayload(gitObjectID) && gitSignature == objSig(gitObjectID)
+//@   loop 2:
+//@     invariant noCreditYet: usedPrincipalIDs != nil && usedKeyIDs != nil && usedPrincipalIDs.contents != nil && usedKeyIDs.contents != nil && setsFresh(usedPrincipalIDs, usedKeyIDs) && setLen(usedPrincipalIDs) == 0 && setLen(usedKeyIDs) == 0
+//@     invariant emptyP: forall s string :: !setHas(usedPrincipalIDs, s)
+//@     invariant emptyK: forall k string :: !setHas(usedKeyIDs, k)
+//@     invariant sig: payload == objPayload(gitObjectID) && gitSignature == objSig(gitObjectID)
+//@     invariant keysOfPrincipal: forall j :: 0 <= j && j < len(keys) ==> keys[j] != nil && pHasKey(principal, keys[j].KeyID)
+//@     invariant principalTrusted: exists i :: 0 <= i && i < len(v.principals) && v.principals[i] == principal
+//@   loop 3:
+//@     invariant credit: credit(v, gitObjectID, env, usedPrincipalIDs, usedKeyIDs) && setsFresh(usedPrincipalIDs, usedKeyIDs) && env != nil
+//@   loop 4:
+//@     invariant credit: credit(v, gitObjectID, env, usedPrincipalIDs, usedKeyIDs) && setsFresh(usedPrincipalIDs, usedKeyIDs) && env != nil
+//@     invariant keysOfPrincipal: forall j :: 0 <= j && j < len(keys) ==> keys[j] != nil && pHasKey(principal, keys[j].KeyID)
+//@     invariant principalTrusted: exists i :: 0 <= i && i < len(v.principals) && v.principals[i] == principal
+//@     invariant sigstoreKeyIDs: forall j :: 0 <= j && j < len(keys) && keys[j].KeyType == "sigstore-oidc" ==> keys[j].KeyID == keys[j].KeyVal.Identity + "::" + keys[j].KeyVal.Issuer
+//@     invariant verifiersUnused: forall q :: 0 <= q && q < len(principalVerifiers) ==> pHasKey(principal, vKeyID(principalVerifiers[q])) && !setHas(usedKeyIDs, vKeyID(principalVerifiers[q]))
+//@   loop 5:
+//@     invariant credit: credit(v, gitObjectID, env, usedPrincipalIDs, usedKeyIDs) && setsFresh(usedPrincipalIDs, usedKeyIDs) && env != nil
+//@     invariant principalTrusted: exists i :: 0 <= i && i < len(v.principals) && v.principals[i] == principal
+//@     invariant acceptedValid: forall a :: 0 <= a && a < len(acceptedKeys) ==> envValid(env, acceptedKeys[a].KeyID) && pHasKey(principal, acceptedKeys[a].KeyID)
+//@     invariant acceptedDistinct: forall a, b :: 0 <= a && a < b && b < len(acceptedKeys) ==> acceptedKeys[a].KeyID != acceptedKeys[b].KeyID
+//@     invariant pendingUnused: forall a :: rangeindex < a && a < len(acceptedKeys) ==> !setHas(usedKeyIDs, acceptedKeys[a].KeyID)
